@@ -542,6 +542,34 @@ func runVariance() {
 					}
 				}
 			}
+			// very wide modules with ONE run a pixel or two on either side of the allowance: the decision
+			// needs more than single precision (allowed deviation beyond 2^24 pixels)
+			if n >= 2 {
+				for _, lim := range limits {
+					for _, k := range []int{1 << 24, 1 << 25, 30000000, 1 << 27, 100000007} {
+						d0 := int(math.Floor(lim * float64(k)))
+						for _, ab := range [][2]int{{0, n - 1}, {n / 2, 0}, {n - 1, 0}} {
+							a, b := ab[0], ab[1]
+							if a == b {
+								continue
+							}
+							for dd := d0 - 2; dd <= d0+3; dd++ {
+								ck := make([]int, n)
+								for x := range p {
+									ck[x] = p[x] * k
+								}
+								if dd < 0 || ck[b] < dd {
+									continue
+								}
+								ck[a] += dd
+								ck[b] -= dd
+								checkVar(l, ck, p, lim, pats[i].table)
+								l.Count("wide_module_near_limit_calls", 1)
+							}
+						}
+					}
+				}
+			}
 			// an allowance that is not a number: no deviation is "more than" NaN, and the zero score of
 			// an exact multiple is stated without condition - only that clause is demanded here
 			for k := 1; k <= 8; k++ {
